@@ -65,6 +65,10 @@ def run(ctx):
     ctx.add_tlc(res)
     if res.violation:
         ctx.violation({"kind": "model", "inv": res.violation}, {"tlc": res.raw_tail[-2000:]})
+    # "no value is spliced into SQL text" holds under any configuration: run with the library's loggers at DEBUG
+    import logging
+    logging.getLogger("odata_query").setLevel(logging.DEBUG)
+    logging.getLogger("odata_query").addHandler(logging.NullHandler())
     sa = backends.ThingSa()
     traces, info = [], {}
     for r in res.records:
